@@ -3,6 +3,7 @@ package c16
 import (
 	"encoding/json"
 	"math/rand"
+	"time"
 
 	"verif/harness/core"
 )
@@ -123,8 +124,9 @@ func selfTest(ctx *core.Ctx) error {
 		{"MC_PageTree_neg_count_kids.cfg", "EffectiveSoFar"},
 		{"MC_PageTree_neg_merge_swapped.cfg", "RootDone"},
 		{"MC_PageTree_neg_inc_inplace.cfg", "PageNumbers"},
+		{"MC_PageTree_neg_lone_node.cfg", "NoPanic"}, // the code before 85b29fa (defect found by this model)
 	} {
-		res, err := ctx.TLC(core.TLCOpts{Dir: "tree", Module: "MC_PageTree", Cfg: nc.cfg, Workers: 4, Mode: "negative-control"})
+		res, err := ctx.TLC(core.TLCOpts{Dir: "tree", Module: "MC_PageTree", Cfg: nc.cfg, Workers: 6, Mode: "negative-control", Timeout: 20 * time.Minute})
 		if err != nil {
 			return err
 		}
@@ -132,7 +134,7 @@ func selfTest(ctx *core.Ctx) error {
 			return core.Infra("self-test: %s should violate %s, got %q", nc.cfg, nc.inv, res.Invariant)
 		}
 	}
-	ctx.Logf("self-test (ii): five seeded defects of the design model violate the expected invariants")
+	ctx.Logf("self-test (ii): six defective variants of the design model (five seeded, one the code before 85b29fa) violate the expected invariants")
 
 	// (iii) a wrong model expectation is noticed by the Go-side comparison
 	g := &genRec{D: 2, Hist: []genOp{{Op: "page", W: 1, ID: []int{1, 1}, A: &attrs{"A", "-", "-", "-"}, NF: []int{}},
